@@ -91,3 +91,53 @@ Proof.
   intros Hn Hn' Hw Hw' Hab E. apply handshake_messages_injective in E; try assumption.
   apply app_inv_head in E. injection E as E _. contradiction.
 Qed.
+
+(* ---------------- key log, PSK ServerKeyExchange, DTLS 1.3 ECDSA schemes ---------------- *)
+
+Theorem keylog_line_usable_spec wcr lcr lsec sec :
+  keylog_line_usable wcr lcr lsec sec = true <-> lcr = wcr /\ lsec = sec.
+Proof.
+  unfold keylog_line_usable. rewrite andb_true_iff, !bytes_eqb_eq. reflexivity.
+Qed.
+
+(* no line (or a line under another random) is not usable: what a DTLS 1.3 connection of /repo leaves
+   in the key log (known finding: nothing is written) *)
+Theorem keylog_absent_refuted wcr sec : wcr <> [] -> keylog_line_usable wcr [] [] sec = false.
+Proof.
+  intro H. destruct (keylog_line_usable wcr [] [] sec) eqn:E; [|reflexivity].
+  apply keylog_line_usable_spec in E. destruct E as [E _]. congruence.
+Qed.
+
+(* /repo writes ServerECDHParams alone when no hint is configured (known finding): that is the RFC 5489
+   encoding for no hint whatsoever - the two length bytes are missing *)
+Theorem ecdhe_psk_ske_without_hint_length_refuted hint curve pub :
+  server_ecdh_params curve pub <> ecdhe_psk_server_key_exchange hint curve pub.
+Proof.
+  intro E. apply (f_equal (@length N)) in E.
+  unfold ecdhe_psk_server_key_exchange, psk_server_key_exchange in E.
+  rewrite !app_length, be_enc_length in E. lia.
+Qed.
+
+Theorem ecdhe_psk_ske_empty_hint curve pub :
+  ecdhe_psk_server_key_exchange [] curve pub = [0; 0] ++ server_ecdh_params curve pub.
+Proof. reflexivity. Qed.
+
+Lemma ecdsa_scheme13_cases g s :
+  ecdsa_scheme13 g = Some s -> (g = 23 /\ s = 1027) \/ (g = 24 /\ s = 1283) \/ (g = 25 /\ s = 1539).
+Proof.
+  unfold ecdsa_scheme13. intro E. destruct g as [|p]; [discriminate|].
+  repeat (destruct p as [p|p|]; cbn in E; try discriminate).
+  all: injection E as <-; auto.
+Qed.
+
+Theorem ecdsa_scheme13_injective g g' s :
+  ecdsa_scheme13 g = Some s -> ecdsa_scheme13 g' = Some s -> g = g'.
+Proof.
+  intros E E'. apply ecdsa_scheme13_cases in E. apply ecdsa_scheme13_cases in E'.
+  destruct E as [[-> ->]|[[-> ->]|[-> ->]]]; destruct E' as [[-> E']|[[-> E']|[-> E']]];
+    try reflexivity; discriminate.
+Qed.
+
+(* /repo signs with (and accepts) a secp384r1 key under ecdsa_secp256r1_sha256 (known finding) *)
+Theorem p384_key_under_scheme_0403_refuted : ecdsa_scheme13 24 <> Some 1027.
+Proof. discriminate. Qed.
